@@ -129,3 +129,21 @@ _R4 = {
 for _pid, _extra in _R4.items():
     _ref, _tech, _text, _note = CHECKS[_pid]
     CHECKS[_pid] = (_ref, _tech, _text + _extra, _note)
+
+# round 5
+_R5 = {
+    "C02": " A summarised context is rebuilt, not delivered from its record; a recorded success delivers None without deserialising only on a path that "
+           "established the payload's absence.",
+    "C05": " The measure compared with the size limit is the length of the JSON text of the update's complete wire dictionary.",
+    "C06": " Every service-reaching call of the consumer loop lies inside the try whose handler raises the failure flag.",
+    "C09": " replay() is also interpreted on all 16 pairs of recorded child statuses: every item carries exactly its own value / error.",
+    "C12": " Plain-string error filters are matched literally (no non-literal reaches the regex engine without re.escape).",
+    "C14": " Callback.result() returns None only on a path that established that no payload was delivered.",
+    "C17": " track_replay is interpreted on small histories (completed / failed / nested contexts, open contexts, pending retries, later completed steps): the "
+           "logger is un-muted exactly when every completed operation a replay can still reach has been passed; the context's own logger carries the "
+           "enclosing operation's id wherever it is built.",
+    "C20": " No reader stores into any level of the dictionary it was given (alias-depth analysis).",
+}
+for _pid, _extra in _R5.items():
+    _ref, _tech, _text, _note = CHECKS[_pid]
+    CHECKS[_pid] = (_ref, _tech, _text + _extra, _note)
